@@ -70,7 +70,7 @@ def op_strategies(name_pool=None):
     S["mk_dim_sampled"] = fixed(op="mk_dim", da=IDX, kind="sampled", interval=st.sampled_from([0.5, 1.0, 0.1, 2.0, 1, 2]),
                                 label=TEXT, unit=UNITS, offset=st.one_of(st.none(), SMALLF), how=HOW)
     S["mk_dim_range"] = fixed(op="mk_dim", da=IDX, kind="range",
-                              ticks=st.one_of(st.none(), st.lists(SMALLF, min_size=1, max_size=5).map(sorted)),
+                              ticks=st.one_of(st.none(), st.lists(NUM, min_size=1, max_size=5).map(sorted)),
                               label=TEXT, unit=UNITS, how=HOW)
     S["mk_dim_set"] = fixed(op="mk_dim", da=IDX, kind="set",
                             labels=st.one_of(st.none(), st.lists(st.text(alphabet=gen.NAME_ALPHA, max_size=4), max_size=4)),
@@ -107,7 +107,7 @@ def op_strategies(name_pool=None):
         fixed(op="set_dim", da=IDX, dim=IDX, attr="unit", val=UNITS, how=HOW),
         fixed(op="set_dim", da=IDX, dim=IDX, attr="offset", val=st.one_of(st.none(), NUM), how=HOW),
         fixed(op="set_dim", da=IDX, dim=IDX, attr="sampling_interval", val=st.sampled_from([0.25, 1.0, 3.0, 2, 1, 0.5]), how=HOW),
-        fixed(op="set_dim", da=IDX, dim=IDX, attr="ticks", val=st.lists(SMALLF, min_size=1, max_size=4).map(sorted), how=HOW),
+        fixed(op="set_dim", da=IDX, dim=IDX, attr="ticks", val=st.lists(NUM, min_size=1, max_size=4).map(sorted), how=HOW),
         fixed(op="set_dim", da=IDX, dim=IDX, attr="labels", val=st.lists(st.text(alphabet=gen.NAME_ALPHA, max_size=3), max_size=4), how=HOW))
     S["force_ts"] = fixed(op="force_ts", k=st.sampled_from(["file", "block", "group", "array", "tag", "mtag", "source", "section", "prop"]),
                           t=IDX, which=st.sampled_from(["created", "updated"]),
@@ -322,7 +322,7 @@ def attr_sweep(draw, reopen=True):
         chunks.append([{"op": "set", "k": k, "t": t, "attr": attr, "val": v, "how": draw(HOW)} for v in seq])
     for dkind_attr, vals in (("label", TEXT), ("unit", UNITS), ("offset", NUM),
                              ("sampling_interval", st.sampled_from([0.25, 1.0, 3.0, 2, 1, 0.5])),
-                             ("ticks", st.lists(SMALLF, min_size=1, max_size=4).map(sorted)),
+                             ("ticks", st.lists(NUM, min_size=1, max_size=4).map(sorted)),
                              ("labels", st.lists(st.text(alphabet=gen.NAME_ALPHA, max_size=3), max_size=4))):
         for _ in range(2):
             da, dim = draw(IDX), draw(IDX)
